@@ -1,6 +1,9 @@
 package main
 
-import "strings"
+import (
+	"go/ast"
+	"strings"
+)
 
 func init() {
 	factFuncs = append(factFuncs, func(ex *factExtractor) {
@@ -16,5 +19,98 @@ func init() {
 			ex.setBool("c04DumpWritesKey", strings.Contains(qs, "Key: []byte(k),"), true,
 				"writeDump records the entry's own key")
 		}
+
+		// Cache.Exec: the key is that of the question this Exec is handed, computed here and now, and it is the one
+		// key every lookup and store of this Exec (and of the lazy update it starts) goes through.
+		const urel = "plugin/executable/cache/utils.go"
+		exec := ex.fn(crel, "Cache", "Exec")
+		lazy := ex.fn(crel, "Cache", "doLazyUpdate")
+		get := ex.fn(urel, "", "getRespFromCache")
+		save := ex.fn(urel, "", "saveRespToCache")
+		if exec != nil {
+			var top []string
+			for _, st := range exec.Body.List {
+				top = append(top, ex.str(st))
+			}
+			i := indexOf(top, "q := qCtx.Q()")
+			ex.setBool("c04ExecKeyOfCurrentQuery", i >= 0 && i+1 < len(top) && top[i+1] == "msgKey := getMsgKey(q)" &&
+				c04Assignments(ex, exec, "msgKey") == 1 && c04Assignments(ex, exec, "q") == 1, true,
+				"Cache.Exec: `q := qCtx.Q()` directly followed by `msgKey := getMsgKey(q)`, neither assigned again")
+		}
+		if exec != nil && lazy != nil && get != nil && save != nil {
+			// every call that reaches the backend takes the key as its first argument
+			firstArgs := func(fd *ast.FuncDecl) (n int, ok bool) {
+				ok = true
+				ast.Inspect(fd.Body, func(x ast.Node) bool {
+					c, isCall := x.(*ast.CallExpr)
+					if !isCall {
+						return true
+					}
+					switch f := ex.str(c.Fun); {
+					case f == "getRespFromCache" || f == "saveRespToCache" || f == "c.doLazyUpdate":
+						n++
+						if len(c.Args) == 0 || ex.str(c.Args[0]) != "msgKey" {
+							ok = false
+						}
+					case strings.HasPrefix(f, "c.backend.") || strings.HasPrefix(f, "backend."):
+						n++
+						if f == "backend.Get" || f == "backend.Store" {
+							if len(c.Args) == 0 || ex.str(c.Args[0]) != "key(msgKey)" {
+								ok = false
+							}
+						} else {
+							ok = false // any other direct access to the store from these functions is not a recognised shape
+						}
+					}
+					return true
+				})
+				return n, ok
+			}
+			firstParamIsKey := func(fd *ast.FuncDecl) bool {
+				ps := fd.Type.Params.List
+				return len(ps) > 0 && len(ps[0].Names) == 1 && ps[0].Names[0].Name == "msgKey" && ex.str(ps[0].Type) == "string"
+			}
+			nE, okE := firstArgs(exec)
+			nL, okL := firstArgs(lazy)
+			nG, okG := firstArgs(get)
+			nS, okS := firstArgs(save)
+			ex.setBool("c04ExecSingleKey", okE && okL && okG && okS && nE == 3 && nL == 1 && nG == 1 && nS == 1 &&
+				firstParamIsKey(lazy) && firstParamIsKey(get) && firstParamIsKey(save) &&
+				c04Assignments(ex, lazy, "msgKey") == 0 && c04Assignments(ex, get, "msgKey") == 0 && c04Assignments(ex, save, "msgKey") == 0, true,
+				"Exec, doLazyUpdate, getRespFromCache, saveRespToCache: the lookup, the store and the lazy update all use the one msgKey of Exec")
+		}
 	})
+}
+
+// c04Assignments counts the statements of fd that assign to (or declare) the variable name.
+func c04Assignments(ex *factExtractor, fd *ast.FuncDecl, name string) int {
+	n := 0
+	ast.Inspect(fd.Body, func(x ast.Node) bool {
+		switch s := x.(type) {
+		case *ast.AssignStmt:
+			for _, l := range s.Lhs {
+				if id, ok := l.(*ast.Ident); ok && id.Name == name {
+					n++
+				}
+			}
+		case *ast.ValueSpec:
+			for _, id := range s.Names {
+				if id.Name == name {
+					n++
+				}
+			}
+		case *ast.IncDecStmt:
+			if id, ok := s.X.(*ast.Ident); ok && id.Name == name {
+				n++
+			}
+		case *ast.RangeStmt:
+			for _, e := range []ast.Expr{s.Key, s.Value} {
+				if id, ok := e.(*ast.Ident); ok && id.Name == name {
+					n++
+				}
+			}
+		}
+		return true
+	})
+	return n
 }
